@@ -767,7 +767,7 @@ class World:
             return {"op": "sweep_eval", "outcome": "baseline-raise", "sd": type(e).__name__}
         N = self.inj.count
         base_obs = observe_part(base, part)
-        ks = op.get("ks") or list(range(1, N + 1, op.get("stride", 1)))
+        ks = op.get("ks") or _points(N, op)
         flavours = op.get("flavours") or ["base", "exc"]
         points = 0
         for k in ks:
@@ -836,7 +836,7 @@ class World:
             return {"op": "sweep_eval", "outcome": "baseline-raise", "sd": type(e).__name__}
         N = self.inj.count
         base_obs = observe_part(base, part)
-        ks = op.get("ks") or list(range(1, N + 1, op.get("stride", 1)))
+        ks = op.get("ks") or _points(N, op)
         flavours = op.get("flavours") or ["base", "exc"]
         points = 0
         for k in ks:
@@ -1086,6 +1086,16 @@ class World:
             self.fail("S", "registry-changed", "registry",
                       f"TRANSFORMS/ENCODINGS or the process-wide numpy error state (np.geterr() = {np.geterr()}) "
                       f"changed at step {self.step} ({op['op']})", extra)
+
+
+def _points(n_events, op):
+    """Crash points of a sweep: every ``stride``-th event; the stride is widened so that at most
+    ``max_points`` points are tried (all of them when there are fewer)."""
+    stride = max(1, op.get("stride", 1))
+    cap = op.get("max_points")
+    if cap and n_events // stride > cap:
+        stride = -(-n_events // cap)
+    return list(range(1, n_events + 1, stride))
 
 
 def run_scenario(scenario, oracles=None, ref=None, suppress=None, dump=False):
